@@ -1514,6 +1514,10 @@ class Interp:
         res = []
         for c, l in self.ev(node.left, cfg, out):
             for c1, r in self.ev(node.right, c, out):
+                if isinstance(l, Const) and isinstance(r, Const) and (l.v is None or r.v is None) and type(node.op) in (ast.Add, ast.Sub, ast.Mult, ast.Div, ast.FloorDiv, ast.Mod):
+                    # arithmetic on None (with a constant): TypeError, as in python
+                    out.add("raise", c1.set("$exc", ExcV("TypeError", f"unsupported operand type(s) for {BIN_NAME[type(node.op)]}: NoneType (line {getattr(node, 'lineno', '?')})")))
+                    continue
                 res.append((c1, self.binop(node.op, l, r)))
         return res
 
